@@ -13,13 +13,22 @@
 # limitations under the License.
 
 from typing import Any
-from collections.abc import Callable
+from collections.abc import Callable, Mapping
 
 import optax
 
 import jax
 from flax import core, struct
 from flax.linen.fp8_ops import OVERWRITE_WITH_GRADIENT
+
+
+def _has_owg(tree) -> bool:
+  """True if ``tree`` is a mapping with an overwrite-with-gradient collection.
+
+  (a parameter tree may also be a bare array or a list / tuple of arrays, for
+  which ``in`` is an elementwise comparison.)
+  """
+  return isinstance(tree, Mapping) and OVERWRITE_WITH_GRADIENT in tree
 
 
 class TrainState(struct.PyTreeNode):
@@ -93,7 +102,7 @@ class TrainState(struct.PyTreeNode):
       and ``opt_state`` updated by applying ``grads``, and additional attributes
       replaced as specified by ``kwargs``.
     """
-    if OVERWRITE_WITH_GRADIENT in grads:
+    if _has_owg(grads):
       grads_with_opt = grads['params']
       params_with_opt = self.params['params']
     else:
@@ -107,7 +116,7 @@ class TrainState(struct.PyTreeNode):
 
     # As implied by the OWG name, the gradients are used directly to update the
     # parameters.
-    if OVERWRITE_WITH_GRADIENT in grads:
+    if _has_owg(grads):
       # keep the container type of `self.params` (dict or FrozenDict).
       new_params = core.copy(
         self.params,
@@ -130,7 +139,7 @@ class TrainState(struct.PyTreeNode):
     """Creates a new instance with ``step=0`` and initialized ``opt_state``."""
     # We exclude OWG params when present because they do not need opt states.
     params_with_opt = (
-      params['params'] if OVERWRITE_WITH_GRADIENT in params else params
+      params['params'] if _has_owg(params) else params
     )
     opt_state = tx.init(params_with_opt)
     return cls(
